@@ -25,7 +25,7 @@ def parse_dump(line):
     ns = []
     for x in nodes[len("nodes="):].split("|"):
         f = x.split(",")
-        ns.append({"space": f[0], "depth": int(f[1]), "exp": f[2] == "1", "skip": f[3] == "1", "flags": f[4], "pn": f[5]})
+        ns.append({"space": f[0], "depth": int(f[1]), "exp": f[2] == "1", "skip": f[3] == "1", "flags": f[4]})
     es = []
     if edges != "-":
         for e in edges.split("|"):
@@ -122,15 +122,15 @@ def _case_worker(case):
     except Exception as e:  # harness error: reported, never silently dropped
         return {"case": case, "error": traceback.format_exc()}
 
-def corr_diffs(w, ignore_pn=False):
+def corr_diffs(w, ignore_attr=False):
     """exact model-vs-code comparison of every step"""
     diffs = []
     for idx, st in enumerate(w["steps"]):
         if st["real_result"] != st["model_result"]:
             diffs.append({"step": idx, "field": "result", "real": st["real_result"], "model": st["model_result"]})
             break
-        a = canon_dump(st["real"], ignore_attr=True, ignore_pn=ignore_pn)
-        b = canon_dump(st["model"], ignore_attr=True, ignore_pn=ignore_pn)
+        a = canon_dump(st["real"], ignore_attr=ignore_attr)
+        b = canon_dump(st["model"], ignore_attr=ignore_attr)
         if a != b:
             f = "nodes" if a["nodes"] != b["nodes"] else "edges"
             diffs.append({"step": idx, "field": f, "real": a[f], "model": b[f]})
@@ -158,7 +158,7 @@ def _fix_worker(case):
             op = list(op)
             if op[0] in ("bfs", "dfs", "min") and op[1] is not None:
                 op[1] = op[1] % len(sd)
-            if op[0] in ("expand", "skipmin"):
+            if op[0] in ("expand", "skipmin", "cands", "seeds", "sets"):
                 op[1] = op[1] % len(sd)
             op = tuple(op)
             _, _, sd = H.apply_real(sd, op, nm)
